@@ -24,8 +24,8 @@ MANIFEST = {
     'technique': 'deductive: VCs from the real AST of Collective._compute (two nested loop invariants, break/continue) and Jumps.collective; '
                  'z3; finite-scope counter-models replayed on the real Collective class; brute-force O(J^2) oracle as stand-in',
 }
-UNITS = ['unit_compute', 'unit_window']
-BOUNDED = ['bounded_collective', 'bounded_purity']
+UNITS = ['unit_compute', 'unit_window', 'unit_plumbing']
+BOUNDED = ['bounded_collective', 'bounded_purity', 'bounded_plumbing']
 META = {'clauses': {'C12.pairs': 'P', 'C12.sort': 'A', 'C12.count': 'P', 'C12.window': 'P', 'C12.dist': 'P'}, 'not_decided': []}
 FN = 'gemdat.collective.Collective._compute'
 COLS = ['atom index', 'start site', 'destination site', 'start time', 'stop time']
@@ -172,7 +172,8 @@ def unit_window(tier):
         ctx.assume(z3.And(dt > 0, nu > 0))
         traj = SObj('Trajectory', constant_lattice=True, lattice=lat.get('matrix'), time_step=dt)
         sites = SObj('Structure')
-        jumps = SObj('Jumps', trajectory=traj, transitions=SObj('Transitions', sites=sites))
+        full = SObj('Trajectory', constant_lattice=True, lattice=lat.get('matrix'), time_step=dt)  # the trajectory with ALL species (another object)
+        jumps = SObj('Jumps', trajectory=traj, transitions=SObj('Transitions', sites=sites, trajectory=full, diff_trajectory=traj))
         u.constructors['TrajectoryMetrics'] = lambda i, a, k, l: SObj('TrajectoryMetrics', trajectory=a[0])
         u.obj_attrs[('TrajectoryMetrics', 'attempt_frequency')] = lambda i, o, l: PyFn(lambda ii, ll: (rec.setdefault('metrics_of', o.get('trajectory')) and nu, z3.Real('nu_std')))
 
@@ -193,8 +194,7 @@ def unit_window(tier):
                 ('frequency of the same trajectory', z3.BoolVal(rec.get('metrics_of') is st['traj'])),
                 ('passes jumps, sites, lattice, cut-off', z3.BoolVal(k.get('jumps') is st['jumps'] and k.get('sites') is st['sites'] and k.get('lattice') is st['lat'] and k.get('max_dist') is st['md']))]
     u.prove_function('gemdat.jumps', 'Jumps.collective', setup, post, raises=(),
-                     replay={'fn': 'verif.props.c12:replay_collective', 'sizes': lambda st: [],
-                             'concretise': lambda m, st, ob: {'rows': [[0, 0, 1, 0, 1], [1, 2, 3, 10, 11], [2, 1, 2, 0, 12]], 'n_sites': 4, 'max_steps': 2, 'geometry': 'line', 'via_jumps': True}})
+                     replay={'fn': 'verif.props.plumbing:replay_forwarders', 'sizes': lambda st: [], 'concretise': lambda m, st, ob: {'which': 'Jumps.collective', 'seed': 3}})
     return u
 
 
@@ -341,3 +341,14 @@ from verif.native.purity import make_bounded as _make_purity  # noqa: E402
 from verif.props.purity_reg import REG as _PURITY_REG  # noqa: E402
 PURITY = _PURITY_REG['C12']
 bounded_purity = _make_purity('C12', PURITY)
+
+
+# plumbing around the anchored functions: forwarding contracts of the public wrappers, no state shared between calls or objects
+from verif.props import plumbing as _plumbing  # noqa: E402
+
+
+def unit_plumbing(tier):
+    return _plumbing.unit_plumbing(PROPERTY)
+
+
+bounded_plumbing = _plumbing.make_bounded(PROPERTY)
